@@ -653,3 +653,158 @@ Proof.
   unfold metric_rnd_shift, metric_rnd, evalRnd_wrapped_shift, evalRnd_wrapped, evalRnd_wrapped_with.
   rewrite call_fuelRs_cvalR. unfold wrapRs, wrapR, dec_applyRs, dec_applyR. now rewrite dec_runRs_cvalR.
 Qed.
+
+(* ---------- packaging for Props/C06_flt_refine.v ---------- *)
+Theorem metric_fltc_refines_table m x y f :
+  In m (map snd all_metrics_ir) ->
+  all_fin x -> all_fin y -> length x = length y -> Zlen_ok x ->
+  metric_fltc m x y = Some f ->
+  ffin f = true /\ metric_rnd_shift cvalD rnd64 m (map f2r x) (map f2r y) = Some (f2r f).
+Proof. intros Hm. apply metric_fltc_refines. now apply table_member_consts. Qed.
+
+Lemma refine_nonvacuous :
+  exists m x y f,
+    In m (map snd all_metrics_ir) /\ m_avoid_zero m = true /\ all_fin x /\ all_fin y /\ length x = length y /\ length x = 2%nat
+    /\ Zlen_ok x /\ metric_fltc m x y = Some f.
+Proof.
+  exists ir_chi_squared, [1%float; 2%float], [3%float; 0.5%float], 0x1.e666666666666p-1%float.
+  split; [vm_compute; tauto|]. split; [reflexivity|].
+  split; [repeat constructor|]. split; [repeat constructor|]. split; [reflexivity|]. split; [reflexivity|].
+  split; [vm_compute; discriminate|]. vm_compute. reflexivity.
+Qed.
+
+(* ---------- undecorated metrics: the refinement is to [metric_rnd rnd64] itself ---------- *)
+Section CallExt.
+  Variables (rnd : R -> R) (c1 c2 : string -> list R -> list R -> option R) (pe : string -> R).
+  Local Notation eS1 := (evalSR rnd c1 pe).
+  Local Notation eV1 := (evalVR rnd c1 pe).
+  Local Notation eS2 := (evalSR rnd c2 pe).
+  Local Notation eV2 := (evalVR rnd c2 pe).
+  Definition agree_on (l : list string) : Prop := forall f, In f l -> forall x y, c1 f x y = c2 f x y.
+
+  Lemma agree_app_l l1 l2 : agree_on (l1 ++ l2) -> agree_on l1.
+  Proof. intros H f Hf. apply H. apply in_or_app. now left. Qed.
+  Lemma agree_app_r l1 l2 : agree_on (l1 ++ l2) -> agree_on l2.
+  Proof. intros H f Hf. apply H. apply in_or_app. now right. Qed.
+
+  Lemma evalSR_call_ext :
+    (forall v, agree_on (callsV v) -> forall x y a b, eV1 v x y a b = eV2 v x y a b)
+    /\ (forall s, agree_on (callsS s) -> forall x y, eS1 s x y = eS2 s x y).
+  Proof.
+    apply expr_mutind.
+    - reflexivity.
+    - reflexivity.
+    - intros s IH H x y a b. rewrite !evalVR_VConstS. now apply IH.
+    - intros o v1 IH1 v2 IH2 H x y a b. cbn [callsV] in H. rewrite !evalVR_VBin.
+      rewrite (IH1 (agree_app_l _ _ H)), (IH2 (agree_app_r _ _ H)). reflexivity.
+    - intros o v1 IH1 H x y a b. rewrite !evalVR_VUn. now rewrite (IH1 H).
+    - intros v1 IH1 c H x y a b. rewrite !evalVR_VPowC. now rewrite (IH1 H).
+    - intros c l IHl r IHr v1 IH1 v2 IH2 H x y a b. cbn [callsV] in H. rewrite !evalVR_VSel.
+      rewrite (IHl (agree_app_l _ _ H)). pose proof (agree_app_r _ _ H) as H'.
+      rewrite (IHr (agree_app_l _ _ H')). pose proof (agree_app_r _ _ H') as H''.
+      destruct (eV2 l x y a b) as [p|]; [|reflexivity]. destruct (eV2 r x y a b) as [q|]; [|reflexivity]. cbn [obind2].
+      destruct (cmpR c p q); [apply (IH1 (agree_app_l _ _ H'')) | apply (IH2 (agree_app_r _ _ H''))].
+    - intros v IH H x y. cbn [callsS] in H. rewrite !evalSR_SSum.
+      now rewrite (map2_ext (fun a b => eV1 v x y a b) (fun a b => eV2 v x y a b) x y (IH H x y)).
+    - intros v IH H x y. cbn [callsS] in H. rewrite !evalSR_SAmax.
+      now rewrite (map2_ext (fun a b => eV1 v x y a b) (fun a b => eV2 v x y a b) x y (IH H x y)).
+    - intros u IHu v IHv H x y. cbn [callsS] in H. rewrite !evalSR_SCountNe. do 2 f_equal. apply map2_ext. intros a b.
+      now rewrite (IHu (agree_app_l _ _ H)), (IHv (agree_app_r _ _ H)).
+    - reflexivity.
+    - reflexivity.
+    - reflexivity.
+    - reflexivity.
+    - intros o s1 IH1 s2 IH2 H x y. cbn [callsS] in H. rewrite !evalSR_SBin.
+      now rewrite (IH1 (agree_app_l _ _ H)), (IH2 (agree_app_r _ _ H)).
+    - intros o s1 IH1 H x y. rewrite !evalSR_SUn. now rewrite (IH1 H).
+    - intros s1 IH1 c H x y. rewrite !evalSR_SPowC. now rewrite (IH1 H).
+    - intros f u IHu v IHv H x y. cbn [callsS] in H. rewrite !evalSR_SCall.
+      assert (Hf : forall x y, c1 f x y = c2 f x y) by (apply H; now left).
+      assert (H' : agree_on (callsV u ++ callsV v)) by (intros g Hg; apply H; now right).
+      rewrite (map2_ext (fun a b => eV1 u x y a b) (fun a b => eV2 u x y a b) x y (IHu (agree_app_l _ _ H') x y)).
+      rewrite (map2_ext (fun a b => eV1 v x y a b) (fun a b => eV2 v x y a b) x y (IHv (agree_app_r _ _ H') x y)).
+      destruct (oseq (map2 (fun a b => eV2 u x y a b) x y)) as [xs|]; [|reflexivity].
+      destruct (oseq (map2 (fun a b => eV2 v x y a b) x y)) as [ys|]; [|reflexivity]. apply Hf.
+  Qed.
+End CallExt.
+
+Lemma plain_fuel_ok eps rnd t dp dprog fuel : forall f, plain_fuel t fuel f = true ->
+  forall x y, call_fuelRs eps rnd t dp dprog fuel f x y = call_fuelR rnd t dp dprog fuel f x y.
+Proof.
+  induction fuel as [|n IH]; intros f Hf x y; cbn [call_fuelRs call_fuelR plain_fuel] in *; [reflexivity|].
+  destruct (lookup_ir f t) as [m|]; [|reflexivity].
+  apply andb_prop in Hf. destruct Hf as [Hd Hc]. unfold wrapRs, wrapR.
+  destruct (m_avoid_zero m); [discriminate|]. unfold eval_bodyR.
+  apply (proj2 (evalSR_call_ext rnd _ _ _)). intros g Hg. apply IH.
+  rewrite forallb_forall in Hc. now apply Hc.
+Qed.
+
+Theorem metric_rnd_shift_plain eps rnd m x y : plain_metric m = true ->
+  metric_rnd_shift eps rnd m x y = metric_rnd rnd m x y.
+Proof.
+  unfold plain_metric. intros H. apply andb_prop in H. destruct H as [Hd Hc].
+  unfold metric_rnd_shift, metric_rnd, evalRnd_wrapped_shift, evalRnd_wrapped, evalRnd_wrapped_with, wrapRs, wrapR.
+  destruct (m_avoid_zero m); [discriminate|]. unfold eval_bodyR.
+  apply (proj2 (evalSR_call_ext rnd _ _ _)). intros g Hg. apply plain_fuel_ok.
+  rewrite forallb_forall in Hc. now apply Hc.
+Qed.
+
+Theorem metric_fltc_refines_plain m x y f :
+  plain_metric m = true -> consts_exactS (m_body m) = true ->
+  all_fin x -> all_fin y -> length x = length y -> Zlen_ok x ->
+  metric_fltc m x y = Some f ->
+  ffin f = true /\ metric_rnd rnd64 m (map f2r x) (map f2r y) = Some (f2r f).
+Proof.
+  intros Hp HC Fx Fy HL HZ H. rewrite <- (metric_rnd_shift_plain cvalD rnd64 m _ _ Hp). now apply metric_fltc_refines.
+Qed.
+
+Lemma plain_names_gen :
+  plain_names = ["average_euclidean_distance"; "chebyshev_distance"; "euclidean_distance"; "gaussian_distance";
+                 "gower_distance"; "hamming_distance"; "hellinger_distance"; "log_euclidean_distance";
+                 "log_squared_euclidean_distance"; "lorentzian_distance"; "manhattan_distance"; "matusita_distance";
+                 "non_intersection_distance"; "squared_chord_distance"; "squared_euclidean_distance"]%string.
+Proof. vm_compute. reflexivity. Qed.
+
+(* ---------- why the shift: the double of EPSILON = 1e-20 is not 1/10^20 ---------- *)
+Lemma f2r_decode (f : pfloat) s m e : Prim2SF f = S754_finite s m e ->
+  f2r f = IZR (SpecFloat.cond_Zopp s (Zpos m)) * bpow radix2 e.
+Proof.
+  unfold f2r. rewrite <- FP.B2SF_Prim2B.
+  destruct (FP.Prim2B f) as [s'|s'| |s' m' e' B]; cbn [BinarySingleNaN.B2SF]; try discriminate.
+  intros [= -> -> ->]. reflexivity.
+Qed.
+
+Lemma epsilon_double_inexact :
+  cvalF CEpsilon = Some cf_EPSILON /\ cvalD CEpsilon = f2r cf_EPSILON /\ cvalD CEpsilon <> cvalR CEpsilon
+  /\ const_exact CEpsilon = false /\ const_exact CMaxArcWeight = true.
+Proof.
+  split; [reflexivity|]. split; [reflexivity|]. split; [|split; vm_compute; reflexivity].
+  unfold cvalD, cvalR. cbn [cvalF cvalQ].
+  assert (D : Prim2SF cf_EPSILON = S754_finite false 6646139978924579%positive (-119)) by (vm_compute; reflexivity).
+  rewrite (f2r_decode _ _ _ _ D). cbn [SpecFloat.cond_Zopp]. unfold c_EPSILON, Q2R. cbn [Qnum Qden].
+  change (bpow radix2 (-119)) with (/ IZR (Z.pow_pos 2 119)).
+  set (P := Z.pow_pos 2 119). set (T := Zpos 100000000000000000000). set (M := Zpos 6646139978924579).
+  assert (NP : IZR P <> 0) by (apply IZR_neq; vm_compute; discriminate).
+  assert (NT : IZR T <> 0) by (apply IZR_neq; discriminate).
+  intros E.
+  assert (X : IZR M * IZR T = IZR P).
+  { transitivity ((IZR M * / IZR P) * (IZR P * IZR T)); [field; exact NP|]. rewrite E. field. exact NT. }
+  rewrite <- mult_IZR in X. apply eq_IZR in X. vm_compute in X. discriminate X.
+Qed.
+
+Lemma refine_plain_nonvacuous :
+  exists m x y f,
+    plain_metric m = true /\ consts_exactS (m_body m) = true /\ all_fin x /\ all_fin y /\ length x = length y /\ length x = 2%nat
+    /\ Zlen_ok x /\ metric_fltc m x y = Some f /\ metric_rnd rnd64 m (map f2r x) (map f2r y) = Some (f2r f).
+Proof.
+  exists ir_average_euclidean, [0%float; 3%float], [4%float; 0.5%float].
+  assert (E : exists f, metric_fltc ir_average_euclidean [0%float; 3%float] [4%float; 0.5%float] = Some f) by (vm_compute; eauto).
+  destruct E as [f E]. exists f.
+  assert (P : plain_metric ir_average_euclidean = true) by (vm_compute; reflexivity).
+  assert (C : consts_exactS (m_body ir_average_euclidean) = true) by (vm_compute; reflexivity).
+  assert (Fx : all_fin [0%float; 3%float]) by (repeat constructor).
+  assert (Fy : all_fin [4%float; 0.5%float]) by (repeat constructor).
+  assert (Z : Zlen_ok [0%float; 3%float]) by (vm_compute; discriminate).
+  repeat split; try assumption.
+  exact (proj2 (metric_fltc_refines_plain _ _ _ _ P C Fx Fy eq_refl Z E)).
+Qed.
